@@ -427,15 +427,13 @@ def run(ctx: Ctx) -> int:
             o = routs[off * 400 + i - 1]
             if i not in acc:
                 rejected += 1
-                # TLC rejects the trace: it must be one the Python-side verdict flagged as well, else the acceptor and its twin disagree
-                if not o["exception"] and not o["problems"]:
-                    last = o["ev"][-1]
-                    exp = 3 if (o["W"] and last["m"][1]) else (2 if last["m"][2] else 0)
-                    if o["code"] == exp:
-                        ctx.drift_note({"what": "trace rejected by Lifecycle.tla but no property clause failed", "events": [[e["k"], e["m"]] for e in t["ev"]][:40]})
+                # TLC is the acceptor: a run without exception whose trace is not a complete life cycle of Lifecycle.tla
+                # (a page written twice, a step out of order, a wrong exit status) violates the property
+                if not o["exception"]:
                     ctx.violation({"invariant": "LifecycleTraceAccepted", "origin": o["job"]["kind"], "job": o["job"],
-                                   "events": [[e["k"], e["m"]] for e in t["ev"]][-12:], "key": "rejected:" + str([e["k"] for e in t["ev"]][-4:])}) \
-                        if o["code"] != exp else None
+                                   "exception": "", "traceback": "", "problems": o["problems"], "failed": ["LifecycleTraceAccepted"],
+                                   "events": [[e["k"], e["m"]] for e in t["ev"]][-16:],
+                                   "key": "rejected:" + o["job"]["kind"].split(":")[0] + ":" + str([e["k"] for e in t["ev"]][-4:])})
     ctx.extra["traces_rejected_by_tlc"] = rejected
     if routs:
         o = routs[0]
